@@ -112,6 +112,11 @@ def make_mw(name, inplace, stub):
 
 
 ALWAYS_COPY = ("sortblocks", "sortblocks2")
+
+
+def always_copy(stack):
+    return all(n in ALWAYS_COPY for n in stack if n != "=")
+
 NAMES = ["remove", "add{", "addq", "resolve", "monthint", "monthabbr", "monthlong", "normkeys", "sortalpha", "sortcustom", "separate",
          "splitnames", "mergeparts", "mergeco", "sortblocks", "sortblocks2", "latexenc", "latexdec"]
 
@@ -128,9 +133,30 @@ def drv(text, prep, stack, inplace, stub, ctx):
     ctx["lib"] = lib
     ctx["before"] = snap(lib)
     out = lib
-    for name in stack:
-        out = make_mw(name, inplace, stub).transform(out)
-    return lib, out, ctx["before"], snap(lib)
+    try:
+        mw = None
+        for name in stack:
+            # "=" : the previous middleware INSTANCE once more, on its own result
+            mw = mw if name == "=" else make_mw(name, inplace, stub)
+            if name == "=":
+                lib = out
+                ctx["before"] = snap(lib)
+            out = mw.transform(out)
+    except Exception as ex:
+        # A middleware may reject input it is not made for (SplitNameParts on a plain string ...).  Whether THIS is such a
+        # rejection is decided by the transformation itself: the same stack in in-place mode on a second, fresh library.
+        lib2 = prepare(text, prep)
+        rejected = False
+        try:
+            o2 = lib2
+            m2 = None
+            for name in stack:
+                m2 = m2 if name == "=" else make_mw(name, True, stub)
+                o2 = m2.transform(o2)
+        except Exception:
+            rejected = True
+        return lib, None, ctx["before"], snap(lib), (type(ex).__name__, rejected)
+    return lib, out, ctx["before"], snap(lib), None
 
 
 def drv_write(text, prep, how="default"):
@@ -139,7 +165,10 @@ def drv_write(text, prep, how="default"):
     fmt.value_column = "auto"
     fb = dict(fmt.__dict__)
     before = snap(lib)
-    if how in ("default", "raising"):
+    if how == "merge-prepend":
+        # the documented way to write a library holding split names (also one holding an invalid-name error block)
+        kw = {"prepend_middleware": [make_mw("mergeparts", False, None), make_mw("mergeco", False, None)]}
+    elif how in ("default", "raising"):
         kw = {}
     elif how == "empty-prepend":
         kw = {"prepend_middleware": []}
@@ -165,7 +194,9 @@ def drv_write(text, prep, how="default"):
         return before, mid, snap(lib), t1, t2, fb, dict(fmt.__dict__)
     t1 = bibtexparser.write_string(lib, bibtex_format=fmt, **kw)
     mid = snap(lib)
-    if how == "copy-prepend":
+    if how == "merge-prepend":
+        kw = {"prepend_middleware": [make_mw("mergeparts", False, None), make_mw("mergeco", False, None)]}
+    elif how == "copy-prepend":
         kw = {"prepend_middleware": [make_mw("sortalpha", False, None)]}
     elif how == "stack":
         kw = {"unparse_stack": [make_mw("add{", False, None)]}
@@ -242,14 +273,30 @@ def native_run(text, prep, stack, inplace):
     ref = _c.deepcopy(lib)
     before = snap(lib)
     out = lib
+    problems = []
     try:
+        mw = None
         for name in stack:
-            out = make_mw(name, inplace, C()).transform(out)
+            mw = mw if name == "=" else make_mw(name, inplace, C())
+            if name == "=":
+                lib = out
+                before = snap(lib)
+            out = mw.transform(out)
     except Exception as ex:  # noqa
         out = None
+        if not inplace and not always_copy(stack):
+            lib2 = prepare(text, prep)
+            try:
+                o2 = lib2
+                m2 = None
+                for name in stack:
+                    m2 = m2 if name == "=" else make_mw(name, True, C())
+                    o2 = m2.transform(o2)
+                problems.append(f"copy mode raised {type(ex).__name__}: {ex} although the same stack works in place on this library")
+            except Exception:  # noqa
+                pass
     after = snap(lib)
-    problems = []
-    if before != after:
+    if before != after and (not inplace or always_copy(stack)):
         problems.append("input library changed")
 
     class E_:  # minimal engine stand-in for the walk
@@ -271,14 +318,14 @@ def task(prep, stack):
     stub = conv_stub()
     ctx = {}
     E = eng.I.models.eq_simple
-    copy_required = lambda inp: (inp is False) or all(n in ALWAYS_COPY for n in stack)
+    copy_required = lambda inp: (inp is False) or always_copy(stack)
     worlds = eng.run(drv, [text, prep, stack, inplace, stub, ctx])
     for W in worlds:
         ok, m = eng.query(W, True)
         if not ok:
             continue
         inp = eng.model_value(m, inplace)
-        must_copy = (not inp) or all(n in ALWAYS_COPY for n in stack)
+        must_copy = (not inp) or always_copy(stack)
 
         def rp(m2, inp=inp):
             pr = native_run(eng.model_str(m2, text), prep, stack, eng.model_value(m2, inplace))
@@ -286,9 +333,18 @@ def task(prep, stack):
                 return None
             return {"input": [eng.model_str(m2, text), prep, stack, eng.model_value(m2, inplace)], "observed": pr, "expected": "no mutation, no aliasing"}
         if W.exc is not None:
-            # a middleware may reject unsuitable input (e.g. SplitNameParts on a plain string): the input must still be untouched
+            rec.require(W, True, "no-exception-outside-the-stack", rp)
             continue
-        lib, out, before, after = W.result
+        lib, out, before, after, raised = W.result
+        if raised is not None:
+            # the stack raised: fine if the transformation itself rejects this input (it also raises in place); the input
+            # must be untouched either way.  Copy mode failing where in-place mode works is a failure to return a result.
+            if must_copy:
+                rec.require(W, b_not(E(before, after)), "input-unchanged", rp)
+            if must_copy and not always_copy(stack) and not raised[1]:
+                rec.require(W, True, "copy-mode-returns-a-result", rp)
+            rec.witness("stack-rejected-input", W)
+            continue
         if must_copy:
             rec.require(W, b_not(E(before, after)), "input-unchanged", rp)
             sh = shared(lib, out, eng)
@@ -343,7 +399,7 @@ def main():
                   "allow_inplace_modification": "symbolic boolean"}
     chk.assumptions = ["exception objects stored in failed blocks are shared on purpose (immutables, exceptions.py); the walk does not count the error object itself but does follow its attributes",
                        "LaTeX middlewares run with a stub converter; user-defined middleware is outside the claim",
-                       "worlds in which a middleware raises on unsuitable input (e.g. SplitNameParts on a plain string) are not judged"]
+                       "a stack that raises is accepted only when the transformation itself rejects the input, i.e. the same stack also raises in in-place mode on a fresh copy of the library (SplitNameParts on a plain string ...); the input must be untouched either way"]
     chk.stubs = ["pylatexenc converter -> '<' + s + '>'"]
     chk.expected_vacuity = ["copy-mode-world", "inplace-mode-does-alias", "written-twice"]
     for pn, prep in PREPS.items():
@@ -352,10 +408,13 @@ def main():
         for how in ("default", "empty-prepend", "copy-prepend", "stack", "raising"):
             if pn in ("raw", "default"):
                 chk.add_task(f"write-{pn}-{how}", task_write, prep=prep, how=how)
+        if pn == "names":
+            chk.add_task(f"write-{pn}-merge-prepend", task_write, prep=prep, how="merge-prepend")
     pairs = list(itertools.permutations(NAMES, 2)) if chk.tier == "thorough" else [
         ("remove", "addq"), ("separate", "splitnames"), ("splitnames", "mergeparts"), ("monthint", "monthlong"), ("normkeys", "sortalpha"),
         ("sortblocks", "remove"), ("remove", "sortblocks"), ("latexenc", "latexdec"), ("resolve", "sortcustom"), ("add{", "sortblocks2"),
         ("mergeparts", "splitnames"), ("mergeco", "separate")]
+    pairs = pairs + [(n, "=") for n in NAMES]       # the same instance applied to its own result
     for a, b in pairs:
         prep = PREPS["default"]
         if a == "splitnames":
